@@ -5,7 +5,7 @@ from tools.props.match_units import MatchUnit
 
 class P(Property):
     id = "C01"
-    gen_targets = ["Kernels"]
+    gen_targets = ["Kernels", "MatchGlue"]
 
     def units(self, tier):
         return [MatchUnit(("C01",))]
